@@ -3,7 +3,7 @@
    witnesses, in the non-vacuity examples and in the correspondence runs (model
    verdict vs the independent validator of the written bytes). *)
 From Coq Require Import List NArith ZArith Bool String Ascii Lia.
-From T4V Require Import Base.Str C08.Model C08.Spec C08.ProofsSets C08.ProofsWrite.
+From T4V Require Import Base.Str C08.Model C08.Spec C08.ProofsSets C08.ProofsWrite C08.ProofsPrune C08.ProofsTail.
 Import ListNotations.
 
 Fixpoint nodupb (l : list Z) : bool :=
@@ -216,3 +216,56 @@ Proof.
 Qed.
 
 End StateB.
+
+(* ---- the hypotheses of the end-to-end theorem, on the tables construct_volume_t4 returns ---- *)
+Section Stage0B.
+Context {E : Type}.
+Variable eeqb : E -> E -> bool.
+
+Definition helpers_okb (surfs : stable E) (u0 u1 : Z) : bool :=
+  nodupb (keys surfs) && negb (u0 =? u1)%Z
+  && match lookup u0 surfs, lookup u1 surfs with
+     | Some s0, Some s1 => negb (eeqb (s_eq s0) (s_eq s1))
+     | _, _ => false
+     end.
+
+Lemma helpers_okb_sound surfs u0 u1 : helpers_okb surfs u0 u1 = true -> helpers_ok eeqb surfs u0 u1.
+Proof.
+  unfold helpers_okb. rewrite !andb_true_iff, nodupb_NoDup. intros [[A B] C].
+  destruct (lookup u0 surfs) as [s0|] eqn:L0; [|discriminate].
+  destruct (lookup u1 surfs) as [s1|] eqn:L1; [|discriminate].
+  constructor; [assumption| |].
+  - exists s0, s1. split; [apply lookup_Some_In; assumption|]. split; [apply lookup_Some_In; assumption|].
+    apply negb_true_iff. assumption.
+  - apply negb_true_iff in B. apply Z.eqb_neq. assumption.
+Qed.
+
+Definition stage0_okb (u0 u1 : Z) (w : wstate E) : bool :=
+  refs_okb (w_surfs w) (w_vols w) && helpers_okb (w_surfs w) u0 u1
+  && match w_vols w with [] => false | _ => true end
+  && forallb (fun k => negb (zmem k (keys (w_vols w)))) (w_skipped w)
+  && forallb (fun p => v_fictive (snd p)
+                       || match lookup (vol_cell_id (fst p) (snd p)) (w_cells w) with
+                          | Some c => cell_namedb w c
+                          | None => false
+                          end) (w_vols w)
+  && forallb (fun ic => match c_density (snd ic) with
+                        | Some d => String.eqb (c_density_norm (snd ic)) d
+                        | None => true
+                        end) (w_cells w).
+
+Theorem stage0_okb_sound u0 u1 w : stage0_okb u0 u1 w = true -> stage0_ok eeqb u0 u1 w.
+Proof.
+  unfold stage0_okb. rewrite !andb_true_iff, !forallb_In. intros [[[[[A B] C] D] F] G]. constructor.
+  - apply refs_okb_sound. assumption.
+  - apply helpers_okb_sound. assumption.
+  - destruct (w_vols w); [discriminate|]. intros H. discriminate.
+  - intros k Hk. apply zmem_false. apply negb_true_iff. apply D. assumption.
+  - intros k v Hin Hf. specialize (F (k, v) Hin). simpl in F. rewrite Hf in F. simpl in F.
+    destruct (lookup (vol_cell_id k v) (w_cells w)) as [c|]; [|discriminate].
+    exists c. split; [reflexivity|]. apply cell_namedb_sound. assumption.
+  - intros cid c Hin d Hd. specialize (G (cid, c) Hin). simpl in G. rewrite Hd in G.
+    apply String.eqb_eq. assumption.
+Qed.
+
+End Stage0B.
